@@ -17,12 +17,13 @@ def count_vectors(total, k):
 
 
 class ILP:
-    def __init__(self, n, k, obj, weights=None, copies=1, constraint=None, order='any', pres='nv'):
+    def __init__(self, n, k, obj, weights=None, copies=1, constraint=None, order='any', pres='nv', fixed=None):
+        self.fixed = {int(a): b for a, b in (fixed or {}).items()}
         self.n = n; self.k = k; self.obj = obj; self.weights = weights; self.copies = copies; self.constraint = constraint
         self.order = order; self.pres = pres
 
     def setup(self, c):
-        idx = item_vars(c, self.n, 0, self.order)
+        idx = item_vars(c, self.n, 0, self.order, fixed=self.fixed)
         cst = c.newvar('c')
         c.assume(c.zvars[cst] >= 0)
         c.ns['x'] = [c.zvars[i] for i in idx]
@@ -31,7 +32,7 @@ class ILP:
     def fn(self, c, idx, cst):
         n, k = self.n, self.k
         names = list(NAMES[:n]); xs = [c.zvars[i] for i in idx]; zx = dict(zip(names, xs))
-        vals = dict(zip(names, numbers(c, idx)))
+        vals = dict(zip(names, numbers(c, idx, self.fixed)))
         cv = c.num(cst); cz = c.zvars[cst]
         copies = self.copies if isinstance(self.copies, list) else [self.copies] * n
         kw = {'objective': objective(self.obj)}
@@ -126,8 +127,19 @@ def job(n, k, obj, mandatory=True, **kw):
     return j
 
 
+def vector_job(name, items, k, obj, **kw):
+    j = job(len(items), k, obj, fixed={str(i): v for i, v in enumerate(items)}, **kw)
+    j['id'] = 'ilp concrete vector %s k=%d obj=%s %s (every optimum the solver may return)' % (name, k, obj, ' '.join('%s=%s' % (a, b) for a, b in sorted(kw.items())))
+    return j
+
+
 def jobs(tier):
     J = []
+    # the repository's own vectors, all values concrete: only the solver's choice among the admissible optima is explored
+    W = [46, 39, 27, 26, 16, 13, 10]
+    for o in ('min', 'max', 'diff'):
+        J.append(vector_job('walter', W, 2, o, weights=[3, 3])); J.append(vector_job('walter', W, 2, o))
+    J.append(vector_job('ilp-doctest', [11, 11, 11, 11, 22], 2, 'min', weights=[2, 2])); J.append(vector_job('dp-doctest', [1, 2, 3, 3, 5, 9, 9], 2, 'min', weights=[5, 5]))
     for o in ('min', 'max', 'diff'):
         J.append(job(3, 2, o))
         for con in ('smallest_eq', 'largest_le', 'smallest_ge'):
